@@ -66,7 +66,8 @@ def payload(spec, w=8, h=8):
             r = base
     if len(_png_cache) > 4000:
         _png_cache.clear()
-    _png_cache[key] = r
+    if len(r) < 50000:
+        _png_cache[key] = r
     return r
 
 
